@@ -10,14 +10,16 @@ MANIFEST = {
                   "intermediate product overflows); Diffie-Hellman agreement for every pair of uint32 scalars; for any two identities, PoW "
                   "settings and nonces, if both nodes accept each other's handshake they hold the same key (32 bytes when the MAC returns 32 "
                   "bytes), for every hash and MAC function; the key material is an injective function of the unordered pair of public keys; "
-                  "validate_public accepts exactly 1 < c < p; p = 2^31-1 is prime. The model is tied to the code by regenerated constants "
+                  "validate_public accepts exactly 1 < c < p; p = 2^31-1 is prime; after ANY history of inbound handshakes the key held "
+                  "for a peer id is the one derived from the last accepted handshake for that id (key_replaced), so two nodes whose last "
+                  "accepted handshakes carried each other's current public keys hold the same key (key_current). The model is tied to the code by regenerated constants "
                   "(kPrime, kGenerator) and by a differential run of the real KeyExchange/KeyManager functions and of pairs of real Nodes "
                   "(generate_handshake_work + perform_handshake both ways, session_key compared) against the compiled Lean model with "
                   "FIPS SHA-256 / RFC 2104 HMAC, the Lean specification judging acceptance and key equality on every line.",
     "level_note": "Trusted: Lean kernel; hand transcription of the C++ into Lean (validated only by the differential run); std::sort on two "
-                  "elements, std::mt19937_64 (re-implemented in the driver to predict work nonces), the harness. Modelled, not proved from "
-                  "source: only the first handshake with a peer on a fresh node (the cooldown early-return and key rotation are history "
-                  "dependent and belong to C20/C21). Identity scalars drawn from a seed are checked at run time (range [2,p-2], public = "
+                  "elements, std::mt19937_64 (re-implemented in the driver to predict work nonces), the harness. Histories of inbound perform_handshake calls (key table, handshake records, the exact-repeat cooldown short-circuit, the same "
+                  "peer id returning with another key pair) are modelled and covered by key_replaced/key_current; time-driven key rotation "
+                  "(rotate_if_needed) is C21. Identity scalars drawn from a seed are checked at run time (range [2,p-2], public = "
                   "g^scalar) but the libstdc++ distribution is not modelled. No secrecy claim: a 31-bit group offers none.",
     "technique": "Lean 4 proof (modular arithmetic, induction on the square-and-multiply loop) + model/implementation differential correspondence with Lean monitor",
 }
@@ -113,6 +115,36 @@ def gen_hsk(rng) -> Case:
     return Case(ops=ops, tag="mutual")
 
 
+def gen_history(rng) -> Case:
+    """repeated mutual handshakes for the same peer ids while one or both sides come back with a new key pair
+    (same peer id), inside (cooldown 3600 s) and outside (cooldown 0) the cooldown, with failing attempts in between"""
+    ida, idb = rid(rng, "abcd"), rid(rng, "efgh")
+    bits = rng.choice([0, 0, 1, 2, 3, 4, 6])
+    cd = lambda: rng.choice([0, 3600])
+    good = lambda: rng.randrange(2, P - 1)
+    cda, cdb = cd(), cd()
+    ops = [f"node A {ida} {good()} {bits} {cda}", f"node B {idb} {good()} {bits} {cdb}", "mutual A B"]
+    for _ in range(rng.randint(1, 5)):
+        r = rng.random()
+        if r < 0.45:      # B restarts with a new identity (same peer id); both sides handshake again
+            ops.append(f"node B {idb} {good()} {bits} {cdb}")
+            ops.append(rng.choice(["mutual A B", "mutual B A"]))
+        elif r < 0.6:     # A restarts as well
+            ops.append(f"node A {ida} {good()} {bits} {cda}")
+            ops.append(rng.choice(["mutual A B", "mutual B A"]))
+        elif r < 0.75:    # exact repeat (short-circuit inside the cooldown)
+            ops.append("mutual A B")
+        elif r < 0.9:     # a refused attempt under B's id must leave A's key alone
+            ops.append(f"hs A {idb} {rng.choice([0, 1, P, P + 1, U32 - 1])} {rng.randrange(0, 2 ** 64)}")
+            ops.append(f"key A {idb}")
+        else:             # a third party with its own key claims B's id (accepted only at 0 bits): A re-keys to that key
+            ops.append(f"hs A {idb} {rng.randrange(2, P)} {rng.randrange(0, 2 ** 64)}")
+            ops.append(f"key A {idb}")
+    ops.append(f"key A {idb}")
+    ops.append(f"key B {ida}")
+    return Case(ops=ops, tag="history")
+
+
 def gen_pub(rng) -> Case:
     ops = []
     for _ in range(rng.randint(3, 8)):
@@ -132,7 +164,8 @@ def generate(ctx, budget):
     out = []
     for i in range(budget):
         r = rng.random()
-        out.append(gen_pure(rng) if r < 0.4 else gen_hsk(rng) if r < 0.75 else gen_pub(rng) if r < 0.93 else gen_ident(rng))
+        out.append(gen_pure(rng) if r < 0.35 else gen_hsk(rng) if r < 0.55 else gen_history(rng) if r < 0.8
+                   else gen_pub(rng) if r < 0.94 else gen_ident(rng))
     return out
 
 
@@ -141,6 +174,8 @@ def nontrivial(r: CaseResult) -> bool:
     result other than 0/1 (pure cases), i.e. the key path or the arithmetic was really exercised"""
     for op, o in zip(r.case.ops, r.impl):
         if op.startswith("hsk ") and "okA=1 okB=1" in o:
+            return True
+        if op.startswith("mutual") and "okX=1 okY=1" in o:
             return True
         if op.startswith("hskpub") and o.startswith("ok="):
             return True
@@ -168,12 +203,15 @@ def spec() -> Spec:
         rule="four streams: pure (modexp/compute_public/validate_public/derive_shared_secret/material/register on random and boundary "
              "values {0,1,2,p-2,p-1,p,p+1,2^32-1,...}), mutual (two real Nodes, scalars set through private access, work solved by "
              "generate_handshake_work at 0-10 bits, perform_handshake both ways, session keys compared), publics (one node receiving boundary "
-             "public values and arbitrary nonces), ident (nodes created from identity seeds); distinct = sha256 of the op list; "
+             "public values and arbitrary nonces), ident (nodes created from identity seeds), history (the same two peer ids "
+             "handshaking repeatedly while one or both sides restart with a new key pair, cooldown 0 s / 3600 s, refused and "
+             "third-party attempts in between; after every accepted handshake the held key must be the one derived from the "
+             "current public keys); distinct = sha256 of the op list; "
              "non-trivial = a mutual handshake accepted on both sides, a hskpub decision, a modexp result other than 0/1, or an identity check",
         trusted_base=["EphVerif.Spec.sha256 / hmacSha256 (C08's FIPS 180-4 / RFC 2104 transcriptions) as the hash and MAC of the driver; the theorems hold for every hash/MAC",
                       "std::mt19937_64 re-implementation in the driver (validated by the differential run itself)",
                       "private members identity_scalar_/identity_public_ set through -fno-access-control to choose the private scalars"],
-        assumptions=["only the first handshake between two fresh nodes is modelled (no cooldown early-return, no key rotation)"],
+        assumptions=["time-driven key rotation (KeyManager::rotate_if_needed) is outside this check (C21)"],
     )
 
 
